@@ -442,6 +442,13 @@ theorem C07_source_events (v : Callback α α) (s : PSet α) (op : Op α)
 theorem C07_source_object_overrides_none :
     Generated.traitSetObjectProg = [] ∧ Generated.traitSetNotifyParams = ["removed", "added"] := by decide
 
+/-- **C07_init_source.**  The constructors of `TraitSet` / `TraitSetObject` in the
+working tree are, statement for statement, the ones the model assumes: every
+"was it given?" / "is there an owner?" decision is an `is None` test. -/
+theorem C07_init_source :
+    [Generated.traitSetNewSource, Generated.traitSetInitSource, Generated.traitSetObjectInitSource]
+      = setConstructorsAssumed := by decide
+
 /-- Non-vacuity: the interpreted source on the F24 input and on a `&=` with a
 list operand (`NotImplemented`, hence `TypeError`, nothing changed). -/
 example :
